@@ -16,15 +16,20 @@ inductive Sexp where
   | list (l : List Sexp)
   deriving Inhabited
 
-/-- tokens: `(`, `)`, atoms -/
+/-- close the atom being read (characters in reverse) -/
+def flushTok (cur : List Char) (acc : List String) : List String :=
+  if cur.isEmpty then acc else String.ofList cur.reverse :: acc
+
+/-- tokens: `(`, `)`, atoms. The atom is only materialised where it ends (a strict `let` in front of the
+branches cost one `String.ofList` per CHARACTER: quadratic in the length of an atom, 0.6 s for the hex text of a
+source file) -/
 def sexpTokens (s : String) : List String :=
   let rec go : List Char → List Char → List String → List String
-    | [], cur, acc => (if cur.isEmpty then acc else String.ofList cur.reverse :: acc).reverse
+    | [], cur, acc => (flushTok cur acc).reverse
     | c :: rest, cur, acc =>
-      let flush := if cur.isEmpty then acc else String.ofList cur.reverse :: acc
-      if c = '(' then go rest [] ("(" :: flush)
-      else if c = ')' then go rest [] (")" :: flush)
-      else if c = ' ' || c = '\t' || c = '\r' || c = '\n' then go rest [] flush
+      if c = '(' then go rest [] ("(" :: flushTok cur acc)
+      else if c = ')' then go rest [] (")" :: flushTok cur acc)
+      else if c = ' ' || c = '\t' || c = '\r' || c = '\n' then go rest [] (flushTok cur acc)
       else go rest (c :: cur) acc
   go s.toList [] []
 
